@@ -368,3 +368,11 @@ SUBS = [
     Sub("history", check_history, hist_case(), nontrivial=nt_hist, quick=400, thorough=3000),
     Sub("is-aligned", check_aligned, aligned_case(), quick=500, thorough=3000),
 ]
+
+
+# objects with a history (reads that may fill caches, in-place writes): observables equal those of a fresh object
+from pbt import aged as _aged  # noqa: E402
+
+SUBS.append(_aged.sub("C14", quick=120))
+ASSUMPTIONS = list(ASSUMPTIONS) + ["aged sub-property: library results are a function of the public primary state "
+                                   "(corners, n, names, units, bc, subregions, array, validity, labels, mapping, unit)"]
